@@ -34,13 +34,15 @@ MANIFEST = {
         "text": "Theorems in lean/Nstd/Life/Props.lean, all for EVERY history incl. a = a, a.append(a[i]), a.resize(n, a[i]), a.append(&a[i], n), a.append(a), "
                 "l.append/prepend/insert(l), m.insert(k, *it), m.insert(m), s.append(s), s.remove(s): lifecycle_ok (complete event log incl. destructors accepted "
                 "by the checker: per slot construct (assign|read)* destroy, sources live, blocks allocated once / freed once with nothing live inside, "
-                "nothing live at the end; the destructors are always defined), lifecycle_prefix_ok, no_fault (no operation of a reachable state takes a "
+                "nothing live at the end; the destructors are always defined), exactly_once (per location #constructions = #destructions, every block allocated at most once "
+                "and freed as often as allocated), lifecycle_prefix_ok, no_fault (no operation of a reachable state takes a "
                 "cannot-happen exit), blocks_released_only_by_destructor, copy_fresh(+_arr) (distinct variables never share a slot/storage), "
                 "copy_equal_list / _array / _node (right after copy construction or assignment the destination has the contents of the source, all copyable kinds), keys_ok, "
                 "copy_independent(+_arr) (an operation leaves every container it does not target unchanged, slots and abstract value), assign_self_noop, "
                 "append_ref / resize_ref / append_ptr / append_self _as_if_copied (Array), list_insert_self_as_if_copied, ref_arg_as_if_copied (any step with a "
                 "reference operand = same step with a temporary copy, up to the log) with Map/HashMap/List operation-level corollaries, "
-                "set_append_self_noop, set_remove_self_empties. No OPEN statement, no _partial theorem. "
+                "set_append_self_noop, set_remove_self_empties, and the literal refinement forms list_insert_self_refines, array_append_self_refines, "
+                "set_append_self_refines, set_remove_self_refines, map_insert_self_refines (op(c, c) = copy t from c; op(c, t)). No OPEN statement, no _partial theorem. "
                 "Tie to the current headers on every run: exhaustive small scope per container, Array alias ops at every size/capacity boundary, random histories, "
                 "ASan/UBSan, ledger arithmetic (constructed - destroyed = live = sum of sizes + sentinels, zero misuse counters, no block left) and "
                 "as-if-copied contents by the reference.",
@@ -54,7 +56,7 @@ MANIFEST = {
                 "HashMap, HashSet, PoolList, PoolMap: the element is still an item in the SAME slot of a container of its kind, no object was constructed "
                 "or destroyed in that slot during the operation and its key is unchanged - or all its member objects were destroyed; never relocated), "
                 "insert_keeps_all and remove_keeps_others (sharp per-step forms: an insertion removes/relocates nothing, remove(iterator) destroys exactly "
-                "the designated element), swap_hands_over, pool_in_place / pool_ops_in_place (PoolList/PoolMap operations emit no copy construction of an "
+                "the designated element), swap_hands_over, blocks_stay (no step other than a destructor / Array::reserve frees a block), pool_in_place / pool_ops_in_place (PoolList/PoolMap operations emit no copy construction of an "
                 "element and no assignment). The harness checks on the real headers after every op that each element is the same object (serial) at the "
                 "address recorded in the ledger, that the iterator saved when it was first seen and find(key) still designate it, or that it was constructed "
                 "by this very op; the Python reference predicts exactly which elements are new; long histories with long-lived elements and the three "
